@@ -212,6 +212,22 @@ CLAIMED["C19"] = ("exploration",
     "TLA+ transcription of ISO C directive layout + TLC-enumerated directive space; real printf run on every directive next to glibc; bytes validated by TLC",
     "Fmt", "5 C19")
 
+CLAIMED["C20"] = ("exploration",
+    "ParserInputs.tla enumerates every byte string up to a bounded length over the reduced alphabet of each of the four "
+    "parsers (printf format strings containing %, fmt() strings, kernel command lines with two option tables incl. "
+    "duplicates and an empty name, to_number inputs for four integer types) plus grammar-generated inputs with very "
+    "long digit runs. ParseTrace.tla is the outcome contract: the call returns, completes or stops through the "
+    "assertion hook, fetches no variadic argument beyond those supplied (va_arg is counted; arguments are supplied from "
+    "a reference reading of the directive grammar), option targets point into the command line; on defined inputs the "
+    "functional result is the reference one (the whole fmt grammar, unquoted command lines, to_number with range "
+    "check). Memory safety is NOT decided by the specification: each input lives in an exact-size heap buffer and the "
+    "harness is built with ASan+UBSan (signed overflow, shifts, bounds); a sanitizer report, crash or non-returning "
+    "call is an event no action matches.",
+    "mixed mode (DESIGN.md section 7): the specification contributes the input language, the outcome contract and the functional reference; "
+    "the memory-safety half rests on the sanitizer observation channel; lengths <=4-6 exhaustively (5-8 thorough)",
+    "TLC-enumerated input language + TLA+ outcome contract validated by TLC on every recorded parser run; ASan/UBSan as observation channel",
+    "Parse", "5 C20")
+
 NOT_YET = "check not built yet in this round (see DESIGN.md build order); not claimed until its TLA+ spec and conformance harness exist"
 
 checks, na = [], []
